@@ -238,7 +238,84 @@ def run_family(R, prog, P, members, floor_axioms, delegates=()):
     R.count("documented axiom schemas", na)
 
 
+def semantic_unique_neighborhoods(prog):
+    """fold unique_neighborhoods over every graph on up to 4 vertices (a stand-in whose neighbors() hands out the graph's own rows): the
+    result is the sorted list of the distinct closed neighbourhoods, each a sorted list of its own, and the graph is left untouched"""
+    import itertools
+    from ..fold import Folder, Raised
+    from ..ql import Unknown
+    fi = prog.func("cnfgen.families.dominatingset", "unique_neighborhoods")
+
+    class G:
+        def __init__(self, n, edges):
+            self.n = n
+            self.rows = [[] for _ in range(n + 1)]
+            for u, v in edges:
+                self.rows[u].append(v)
+                self.rows[v].append(u)
+            for r in self.rows:
+                r.sort()
+
+        def number_of_vertices(self):
+            return self.n
+
+        order = number_of_vertices
+
+        def vertices(self):
+            return range(1, self.n + 1)
+
+        def neighbors(self, v):
+            return self.rows[v]
+
+        def number_of_edges(self):
+            return sum(len(r) for r in self.rows) // 2
+    cnt = 0
+    for n in range(0, 5):
+        pairs = list(itertools.combinations(range(1, n + 1), 2))
+        for mask in range(2 ** len(pairs)):
+            if n == 4 and mask % 3:          # a third of the 64 graphs on 4 vertices
+                continue
+            edges = [p_ for i, p_ in enumerate(pairs) if (mask >> i) & 1]
+            g = G(n, edges)
+            before = [list(r) for r in g.rows]
+            f = Folder(env={})
+            try:
+                got = f.call_function(fi.node, [g], {})
+            except Raised as r:
+                return False, "unique_neighborhoods raises %s on the graph with %d vertices and edges %s" % (r.cls, n, edges)
+            except Unknown as e:
+                return None, "cannot fold unique_neighborhoods: %s" % e
+            want = sorted({tuple(sorted([v] + before[v])) for v in range(1, n + 1)})
+            try:
+                gl = [list(x) for x in got]
+            except TypeError:
+                return False, "unique_neighborhoods returns %r" % (got,)
+            if [tuple(x) for x in gl] != want:
+                return False, ("on the graph with %d vertices and edges %s unique_neighborhoods gives %s; the distinct closed neighbourhoods, "
+                               "sorted, are %s" % (n, edges, gl, [list(w) for w in want]))
+            if [list(r) for r in g.rows] != before:
+                return False, "unique_neighborhoods changes the adjacency rows of its argument (graph with edges %s)" % edges
+            if any(any(x is r for r in g.rows) for x in got) or len({id(x) for x in got}) != len(gl):
+                return False, "unique_neighborhoods hands out a row of the graph itself / the same list twice (graph with edges %s)" % edges
+            cnt += 1
+    return True, "%d graphs on up to 4 vertices folded" % cnt
+
+
 def check_unique_neighborhoods(R, prog, P):
+    from ._shared import with_semantics
+    fi = prog.func("cnfgen.families.dominatingset", "unique_neighborhoods")
+    sem = semantic_unique_neighborhoods(prog)
+    try:
+        with_semantics(R, P, lambda T: _shape_unique_neighborhoods(T, prog, P), sem,
+                       "unique_neighborhoods lists the distinct closed neighbourhoods", fi, rule="HELPER")
+    except AnalysisError as e:
+        if sem[0] is not True:
+            raise
+        R.ok("HELPER", "unique_neighborhoods: %s" % sem[1], fi.key)
+        R.unknown("HELPER", "unique_neighborhoods shape", fi.key, "shape not recognised (%s); the meaning of the fragment was confirmed by folding" % str(e)[:100])
+
+
+def _shape_unique_neighborhoods(R, prog, P):
     """HELPER: unique_neighborhoods(G) lists the distinct *closed* neighbourhoods, each in a list of its own"""
     mod = "cnfgen.families.dominatingset"
     fi = prog.func(mod, "unique_neighborhoods")
